@@ -2,16 +2,16 @@
 # Confirm every seeded change: demo passes on the pinned tree, fails with the change, baseline still passes with the change.
 # usage: tools/confirm_mutants.sh <mutants-root> <out.jsonl>
 ROOT=${1:-/tmp/mut}; OUT=${2:-/root/mutant_confirm.jsonl}
-BASE=447ed3b
+BASE=${BASE:-447ed3b}
 : > "$OUT"
-for d in $ROOT/C*/[ab]; do
+for d in $ROOT/C*/[abcd]; do
   id=$(basename $(dirname $d))_$(basename $d)
   WT=/tmp/wtv_$id
   git -C /repo worktree add -f --detach $WT $BASE -q 2>/dev/null
   ( cd /tmp && PYTHONPATH=$WT MPLBACKEND=Agg timeout 900 /venv/bin/python $d/demo.py >/dev/null 2>&1 ); rc_clean=$?
   if git -C $WT apply $d/patch.diff 2>/dev/null; then applied=1; else applied=0; fi
   ( cd /tmp && PYTHONPATH=$WT MPLBACKEND=Agg timeout 900 /venv/bin/python $d/demo.py >/dev/null 2>&1 ); rc_mut=$?
-  base=$(/verif/tools/baseline.sh $WT 14 2>&1 | grep -E "passed|failed" | tail -1)
+  base=$(/verif/tools/baseline.sh $WT ${BASE_WORKERS:-14} 2>&1 | grep -E "passed|failed" | tail -1)
   echo "{\"id\":\"$id\",\"applied\":$applied,\"demo_rc_clean\":$rc_clean,\"demo_rc_mutant\":$rc_mut,\"baseline\":\"$base\"}" >> "$OUT"
   git -C /repo worktree remove --force $WT
 done
